@@ -8,7 +8,7 @@ Local Open Scope nat_scope.
 
 (* ================= fuel ================= *)
 Section Fuel.
-  Variables (g : list node) (inv : N) (mc fixed : bool).
+  Variables (g : list node) (inv : N) (mc : bool) (fixed : config).
   Hypothesis Hwf : wf_dag g.
 
   Lemma compile_deps_fuel : forall rec n comb ck l st,
@@ -96,7 +96,7 @@ Proof.
 Qed.
 
 Section Frozen.
-  Variables (g g' : list node) (inv : N) (mc fixed : bool).
+  Variables (g g' : list node) (inv : N) (mc : bool) (fixed : config).
   Hypothesis Hsame : same_but_cache g g'.
 
   Lemma pipeline_same : forall fuel i, pipeline fuel g i = pipeline fuel g' i.
